@@ -213,7 +213,7 @@ func init() {
 						return "", err
 					}
 					if ip == c12Module {
-						ws, err := c12Wiring(c, info, fd)
+						ws, err := c12Wiring(c, info, fd, k.files[c12Module])
 						if err != nil {
 							return "", err
 						}
@@ -275,26 +275,25 @@ type c12Wire struct {
 	pos       token.Position
 }
 
-// c12Wiring looks, in one function of the root package, for
+// c12Wiring finds, in one function of the root package, every store of a protocol stack into a
+// transport:
 //
-//	&h2internal.Transport{Options: &X.Options, …}   assigned to Y.t2
-//	&http3.RoundTripper{Options: &X.Options, …}     assigned to Y.t3 (directly or through a local)
+//	Y.t2 = <value>      Y.t3 = <value>
 //
-// and, in Transport.Clone, for the call Y.EnableHTTP3() on the clone variable. sameOwner =
-// X and Y are the same object.
-func c12Wiring(c *ctx, info *types.Info, fd *ast.FuncDecl) ([]c12Wire, error) {
+// and resolves what the stack's `Options` pointer is, symbolically: <value> may be the
+// `&h2internal.Transport{…}` / `&http3.RoundTripper{…}` literal itself, a local variable that holds
+// it, or a call to a function of the same package that builds it (followed ONE level deep, the
+// parameters substituted by the arguments). `Options` may be given as a key of the literal or by a
+// field assignment after construction (`v.Options = E`, `Y.t2.Options = E`). sameOwner = the
+// resolved expression is `&Z.Options` with Z the very object Y. A value that cannot be resolved
+// this way makes the extractor REFUSE; a resolved pointer to anything else (a detached copy, a
+// local, another transport's options) is reported as sameOwner = false.
+//
+// In Transport.Clone the call Y.EnableHTTP3() must be made on the clone (the returned variable).
+func c12Wiring(c *ctx, info *types.Info, fd *ast.FuncDecl, pkgFiles []*ast.File) ([]c12Wire, error) {
 	var out []c12Wire
 	fnTag := ""
-	recv := ""
-	if fd.Recv != nil && len(fd.Recv.List) == 1 {
-		t := fd.Recv.List[0].Type
-		if st, ok := t.(*ast.StarExpr); ok {
-			t = st.X
-		}
-		if id, ok := t.(*ast.Ident); ok {
-			recv = id.Name
-		}
-	}
+	recv := c12RecvName(fd)
 	switch {
 	case recv == "" && fd.Name.Name == "T":
 		fnTag = "newT"
@@ -303,118 +302,70 @@ func c12Wiring(c *ctx, info *types.Info, fd *ast.FuncDecl) ([]c12Wire, error) {
 	case recv == "Transport" && fd.Name.Name == "EnableHTTP3":
 		fnTag = "enableHTTP3"
 	}
-	objOf := func(e ast.Expr) types.Object {
-		id, ok := e.(*ast.Ident)
-		if !ok {
-			return nil
-		}
-		if o := info.Uses[id]; o != nil {
-			return o
-		}
-		return info.Defs[id]
-	}
-	// stack literals: literal node -> (stack, X object)
-	type lit struct {
-		stack string
-		x     types.Object
-		node  ast.Expr
-	}
-	var lits []lit
+	r := &c12Resolver{c: c, info: info, files: pkgFiles}
 	var err error
 	ast.Inspect(fd.Body, func(n ast.Node) bool {
-		ue, ok := n.(*ast.UnaryExpr)
-		if !ok || ue.Op != token.AND {
+		as, ok := n.(*ast.AssignStmt)
+		if !ok || err != nil {
+			return err == nil
+		}
+		if len(as.Lhs) != len(as.Rhs) {
 			return true
 		}
-		cl, ok := ue.X.(*ast.CompositeLit)
-		if !ok {
-			return true
-		}
-		sel, ok := cl.Type.(*ast.SelectorExpr)
-		if !ok {
-			return true
-		}
-		stack := ""
-		switch c12ExprStr(sel) {
-		case "h2internal.Transport":
-			stack = "h2"
-		case "http3.RoundTripper":
-			stack = "h3"
-		default:
-			return true
-		}
-		var x types.Object
-		found := false
-		for _, el := range cl.Elts {
-			kv, ok := el.(*ast.KeyValueExpr)
-			if !ok {
+		for i, lh := range as.Lhs {
+			sel, ok := lh.(*ast.SelectorExpr)
+			if !ok || (sel.Sel.Name != "t2" && sel.Sel.Name != "t3") {
 				continue
 			}
-			if id, ok := kv.Key.(*ast.Ident); ok && id.Name == "Options" {
-				found = true
-				if u, ok := kv.Value.(*ast.UnaryExpr); ok && u.Op == token.AND {
-					if s2, ok := u.X.(*ast.SelectorExpr); ok && s2.Sel.Name == "Options" {
-						x = objOf(s2.X)
-					}
+			if id, ok := as.Rhs[i].(*ast.Ident); ok && id.Name == "nil" {
+				continue // DisableHTTP3
+			}
+			stack := map[string]string{"t2": "h2", "t3": "h3"}[sel.Sel.Name]
+			y := r.objOf(sel.X)
+			if y == nil {
+				err = fmt.Errorf("%s: stack stored into something that is not a plain variable", c.fset.Position(as.Pos()))
+				return false
+			}
+			if fnTag == "" {
+				err = fmt.Errorf("%s: protocol stack stored in unexpected function %s", c.fset.Position(as.Pos()), fd.Name.Name)
+				return false
+			}
+			opt, e := r.stackOptions(fd, as.Rhs[i], stack, 1)
+			if e != nil {
+				err = e
+				return false
+			}
+			if opt == nil {
+				// filled after the store: Y.t2.Options = E
+				opt = r.fieldAssign(fd, func(x ast.Expr) bool {
+					s2, ok := x.(*ast.SelectorExpr)
+					return ok && s2.Sel.Name == sel.Sel.Name && r.objOf(s2.X) == y
+				})
+			}
+			if opt == nil {
+				err = fmt.Errorf("%s: could not find what the %s stack's Options points at", c.fset.Position(as.Pos()), stack)
+				return false
+			}
+			same := false
+			if u, ok := c12Unparen(opt).(*ast.UnaryExpr); ok && u.Op == token.AND {
+				if s2, ok := c12Unparen(u.X).(*ast.SelectorExpr); ok && s2.Sel.Name == "Options" {
+					same = r.objOf(s2.X) == y
 				}
 			}
+			out = append(out, c12Wire{fnTag, stack, same, c.fset.Position(as.Pos())})
 		}
-		if !found || x == nil {
-			err = fmt.Errorf("%s: %s literal without `Options: &X.Options`", c.fset.Position(cl.Pos()), c12ExprStr(sel))
-			return false
-		}
-		lits = append(lits, lit{stack, x, ue})
 		return true
 	})
 	if err != nil {
 		return nil, err
 	}
-	if len(lits) > 0 && fnTag == "" {
-		return nil, fmt.Errorf("%s: protocol stack constructed in unexpected function %s", c.fset.Position(fd.Pos()), fd.Name.Name)
-	}
-	for _, l := range lits {
-		// find the assignment chain literal -> [local ->] Y.t2 / Y.t3
-		var holder types.Object // local var holding the literal
-		var y types.Object
-		ast.Inspect(fd.Body, func(n ast.Node) bool {
-			as, ok := n.(*ast.AssignStmt)
-			if !ok || len(as.Lhs) != len(as.Rhs) {
-				return true
-			}
-			for i, r := range as.Rhs {
-				fromLit := r == l.node
-				fromHolder := holder != nil && objOf(r) == holder
-				if !fromLit && !fromHolder {
-					continue
-				}
-				switch lh := as.Lhs[i].(type) {
-				case *ast.Ident:
-					if fromLit {
-						holder = objOf(lh)
-					}
-				case *ast.SelectorExpr:
-					want := map[string]string{"h2": "t2", "h3": "t3"}[l.stack]
-					if lh.Sel.Name == want {
-						y = objOf(lh.X)
-					}
-				}
-			}
-			return true
-		})
-		if y == nil {
-			return nil, fmt.Errorf("%s: could not find which transport the %s stack literal is stored into", c.fset.Position(l.node.Pos()), l.stack)
-		}
-		out = append(out, c12Wire{fnTag, l.stack, l.x == y, c.fset.Position(l.node.Pos())})
-	}
 	if fnTag == "clone" {
-		// the clone variable: the one whose .t2 is assigned
+		// the clone: the variable Clone returns
 		var cloneVar types.Object
 		ast.Inspect(fd.Body, func(n ast.Node) bool {
-			if as, ok := n.(*ast.AssignStmt); ok {
-				for _, lh := range as.Lhs {
-					if s, ok := lh.(*ast.SelectorExpr); ok && s.Sel.Name == "t2" {
-						cloneVar = objOf(s.X)
-					}
+			if rs, ok := n.(*ast.ReturnStmt); ok && len(rs.Results) == 1 {
+				if o := r.objOf(rs.Results[0]); o != nil {
+					cloneVar = o
 				}
 			}
 			return true
@@ -427,7 +378,7 @@ func c12Wiring(c *ctx, info *types.Info, fd *ast.FuncDecl) ([]c12Wire, error) {
 			}
 			if s, ok := ce.Fun.(*ast.SelectorExpr); ok && s.Sel.Name == "EnableHTTP3" {
 				calls++
-				out = append(out, c12Wire{"clone", "h3", cloneVar != nil && objOf(s.X) == cloneVar, c.fset.Position(ce.Pos())})
+				out = append(out, c12Wire{"clone", "h3", cloneVar != nil && r.objOf(s.X) == cloneVar, c.fset.Position(ce.Pos())})
 			}
 			return true
 		})
@@ -436,4 +387,236 @@ func c12Wiring(c *ctx, info *types.Info, fd *ast.FuncDecl) ([]c12Wire, error) {
 		}
 	}
 	return out, nil
+}
+
+func c12RecvName(fd *ast.FuncDecl) string {
+	if fd.Recv == nil || len(fd.Recv.List) != 1 {
+		return ""
+	}
+	t := fd.Recv.List[0].Type
+	if st, ok := t.(*ast.StarExpr); ok {
+		t = st.X
+	}
+	if id, ok := t.(*ast.Ident); ok {
+		return id.Name
+	}
+	return ""
+}
+
+func c12Unparen(e ast.Expr) ast.Expr {
+	for {
+		p, ok := e.(*ast.ParenExpr)
+		if !ok {
+			return e
+		}
+		e = p.X
+	}
+}
+
+type c12Resolver struct {
+	c     *ctx
+	info  *types.Info
+	files []*ast.File
+}
+
+func (r *c12Resolver) objOf(e ast.Expr) types.Object {
+	id, ok := c12Unparen(e).(*ast.Ident)
+	if !ok {
+		return nil
+	}
+	if o := r.info.Uses[id]; o != nil {
+		return o
+	}
+	return r.info.Defs[id]
+}
+
+func c12StackLit(e ast.Expr, stack string) *ast.CompositeLit {
+	e = c12Unparen(e)
+	if u, ok := e.(*ast.UnaryExpr); ok && u.Op == token.AND {
+		e = c12Unparen(u.X)
+	}
+	cl, ok := e.(*ast.CompositeLit)
+	if !ok {
+		return nil
+	}
+	sel, ok := cl.Type.(*ast.SelectorExpr)
+	if !ok {
+		return nil
+	}
+	want := map[string]string{"h2": "h2internal.Transport", "h3": "http3.RoundTripper"}[stack]
+	if c12ExprStr(sel) != want {
+		return nil
+	}
+	return cl
+}
+
+// fieldAssign finds `<target>.Options = E` in fd, where isTarget recognises <target>.
+func (r *c12Resolver) fieldAssign(fd *ast.FuncDecl, isTarget func(ast.Expr) bool) ast.Expr {
+	var found ast.Expr
+	ast.Inspect(fd.Body, func(n ast.Node) bool {
+		as, ok := n.(*ast.AssignStmt)
+		if !ok || len(as.Lhs) != len(as.Rhs) {
+			return true
+		}
+		for i, lh := range as.Lhs {
+			if s, ok := lh.(*ast.SelectorExpr); ok && s.Sel.Name == "Options" && isTarget(c12Unparen(s.X)) {
+				found = as.Rhs[i] // the last assignment in source order wins
+			}
+		}
+		return true
+	})
+	return found
+}
+
+// stackOptions resolves the `Options` expression of the stack value v (an expression of
+// function fd). It returns (nil, nil) when v is a stack literal / local without any Options
+// given (the caller then looks for a later field assignment), an error when v is of a shape the
+// extractor does not understand.
+func (r *c12Resolver) stackOptions(fd *ast.FuncDecl, v ast.Expr, stack string, depth int) (ast.Expr, error) {
+	v = c12Unparen(v)
+	if cl := c12StackLit(v, stack); cl != nil {
+		for _, el := range cl.Elts {
+			if kv, ok := el.(*ast.KeyValueExpr); ok {
+				if id, ok := kv.Key.(*ast.Ident); ok && id.Name == "Options" {
+					return kv.Value, nil
+				}
+			}
+		}
+		return nil, nil
+	}
+	switch x := v.(type) {
+	case *ast.Ident:
+		obj := r.objOf(x)
+		if obj == nil {
+			return nil, fmt.Errorf("%s: unresolved identifier %s", r.c.fset.Position(x.Pos()), x.Name)
+		}
+		// a field assignment on the local after construction wins over the literal's key
+		if e := r.fieldAssign(fd, func(t ast.Expr) bool { return r.objOf(t) == obj }); e != nil {
+			return e, nil
+		}
+		// the local's defining assignment
+		var def ast.Expr
+		ast.Inspect(fd.Body, func(n ast.Node) bool {
+			switch a := n.(type) {
+			case *ast.AssignStmt:
+				if len(a.Lhs) == len(a.Rhs) {
+					for i, lh := range a.Lhs {
+						if id, ok := lh.(*ast.Ident); ok && r.objOf(id) == obj {
+							def = a.Rhs[i]
+						}
+					}
+				}
+			case *ast.ValueSpec:
+				for i, n2 := range a.Names {
+					if r.objOf(n2) == obj && i < len(a.Values) {
+						def = a.Values[i]
+					}
+				}
+			}
+			return true
+		})
+		if def == nil {
+			return nil, fmt.Errorf("%s: no definition found for the stack variable %s in %s", r.c.fset.Position(x.Pos()), x.Name, fd.Name.Name)
+		}
+		return r.stackOptions(fd, def, stack, depth)
+	case *ast.CallExpr:
+		if depth == 0 {
+			return nil, fmt.Errorf("%s: stack built through more than one level of helper calls", r.c.fset.Position(x.Pos()))
+		}
+		fid, ok := x.Fun.(*ast.Ident)
+		if !ok {
+			return nil, fmt.Errorf("%s: stack value is the result of %s, not of a function of this package", r.c.fset.Position(x.Pos()), c12ExprStr(x.Fun))
+		}
+		var helper *ast.FuncDecl
+		for _, f := range r.files {
+			for _, d := range f.Decls {
+				if h, ok := d.(*ast.FuncDecl); ok && h.Recv == nil && h.Name.Name == fid.Name && h.Body != nil {
+					helper = h
+				}
+			}
+		}
+		if helper == nil {
+			return nil, fmt.Errorf("%s: helper %s not found in the package", r.c.fset.Position(x.Pos()), fid.Name)
+		}
+		// parameters -> arguments
+		params := map[types.Object]ast.Expr{}
+		k := 0
+		for _, fl := range helper.Type.Params.List {
+			for _, n := range fl.Names {
+				if k < len(x.Args) {
+					if o := r.info.Defs[n]; o != nil {
+						params[o] = x.Args[k]
+					}
+				}
+				k++
+			}
+		}
+		if k != len(x.Args) {
+			return nil, fmt.Errorf("%s: helper %s: variadic / mismatching call", r.c.fset.Position(x.Pos()), fid.Name)
+		}
+		// the helper's single result
+		var rets []ast.Expr
+		ast.Inspect(helper.Body, func(n ast.Node) bool {
+			if _, ok := n.(*ast.FuncLit); ok {
+				return false
+			}
+			if rs, ok := n.(*ast.ReturnStmt); ok {
+				if len(rs.Results) == 1 {
+					rets = append(rets, rs.Results[0])
+				} else {
+					rets = append(rets, nil)
+				}
+			}
+			return true
+		})
+		if len(rets) != 1 || rets[0] == nil {
+			return nil, fmt.Errorf("%s: helper %s does not have exactly one single-value return", r.c.fset.Position(x.Pos()), fid.Name)
+		}
+		inner, err := r.stackOptions(helper, rets[0], stack, depth-1)
+		if err != nil {
+			return nil, err
+		}
+		if inner == nil {
+			return nil, nil
+		}
+		return r.subst(inner, params)
+	}
+	return nil, fmt.Errorf("%s: stack value of unsupported shape %T", r.c.fset.Position(v.Pos()), v)
+}
+
+// subst rewrites an expression of a helper's frame into the caller's frame by replacing the
+// helper's parameters with the call's arguments (small expression grammar only).
+func (r *c12Resolver) subst(e ast.Expr, params map[types.Object]ast.Expr) (ast.Expr, error) {
+	switch x := e.(type) {
+	case *ast.Ident:
+		if a, ok := params[r.objOf(x)]; ok {
+			return a, nil
+		}
+		return x, nil // a local / global of the helper: stays foreign to the caller's transport
+	case *ast.ParenExpr:
+		return r.subst(x.X, params)
+	case *ast.SelectorExpr:
+		in, err := r.subst(x.X, params)
+		if err != nil {
+			return nil, err
+		}
+		return &ast.SelectorExpr{X: in, Sel: x.Sel}, nil
+	case *ast.UnaryExpr:
+		in, err := r.subst(x.X, params)
+		if err != nil {
+			return nil, err
+		}
+		return &ast.UnaryExpr{Op: x.Op, X: in, OpPos: x.OpPos}, nil
+	case *ast.StarExpr:
+		in, err := r.subst(x.X, params)
+		if err != nil {
+			return nil, err
+		}
+		// *(&a) = a
+		if u, ok := c12Unparen(in).(*ast.UnaryExpr); ok && u.Op == token.AND {
+			return u.X, nil
+		}
+		return &ast.StarExpr{X: in}, nil
+	}
+	return nil, fmt.Errorf("%s: helper's Options expression of unsupported shape %T", r.c.fset.Position(e.Pos()), e)
 }
